@@ -1,15 +1,16 @@
 -------------------------------- MODULE Wrap --------------------------------
 (***************************************************************************)
 (* C16, L1 - the reference greedy first-fit word wrap over cell lists.    *)
-(* Whitespace is what Python's \s matches in the alphabet used (space,    *)
-(* tab, newline, VT, FF, CR).  A line is a sequence of entries            *)
+(* Whitespace is what Python's \s matches on str: the 29 code points of   *)
+(* WhiteSpace below (ASCII and Unicode).  A line is a sequence of entries *)
 (*   <<"w", cell>>       a character of a word (keeps its cell)            *)
 (*   <<"j", gapcells>>   the single space joining two words, standing for *)
 (*                       the whitespace stretch `gapcells` it replaces     *)
 (***************************************************************************)
 EXTENDS Base
 
-IsSp(c) == c[1] \in {32, 9, 10, 11, 12, 13}
+WhiteSpace == {9, 10, 11, 12, 13, 28, 29, 30, 31, 32, 133, 160, 5760, 8232, 8233, 8239, 8287, 12288} \cup (8192..8202)
+IsSp(c) == c[1] \in WhiteSpace
 
 RECURSIVE PrefixLen(_, _, _)
 PrefixLen(cs, i, sp) == IF i <= Len(cs) /\ IsSp(cs[i]) = sp THEN 1 + PrefixLen(cs, i + 1, sp) ELSE 0
